@@ -1755,6 +1755,7 @@ func (ex *Executor) SetupRedirects(pkg *ssa.Package) {
 		"(*sync.Map).Range": "verifModelSyncMapRange",
 		"(*sync.Once).Do":   "verifModelOnceDo",
 		"errors.Is":         "verifModelErrorsIs",
+		"context.Cause":     "verifModelContextCause",
 		"(*bytes.Reader).WriteTo": "verifModelReaderWriteTo",
 		"os.Stat":                 "verifModelStat",
 		"(*os.File).Stat":         "verifModelFStat",
